@@ -9,8 +9,8 @@ import (
 
 func init() {
 	register(&propDef{
-		id:  "C10",
-		run: runC10,
+		id:          "C10",
+		run:         runC10,
 		explanation: "Static per-path accounting of the four-channel writer protocol (writeLockC token, writeMergeC requests, writeMergedC replies, writeAckC results) with a path-sensitive typestate engine over SSA: on every CFG path of Write/putRec/writeLocked/unlockWrite every received merge request gets exactly one reply, every merged writer collects exactly one result, every exit of the leader passes exactly one unlockWrite with the loop's own overflow/merged values, and the lock is either released or handed off exactly once. Also the guards inside unlockWrite and the sibling agreement of Write and putRec. These are necessary conditions: breaking one leaves a writer unanswered, answered twice, or the lock lost/duplicated on that path. Rendezvous orders between goroutines and fairness are NOT decided.",
 		notCovered:  "interleavings of N writers with Close/transactions/persistent-error handler; that the channel rendezvous happen in a compatible order across goroutines; fairness",
 		assumptions: []string{"unbuffered channel send/receive pairs up one sender with one receiver", "token contracts table in token.go"},
@@ -201,23 +201,27 @@ func runC10(p *Prog, r *Report) {
 		r.End()
 	}
 	if want("C10.6") {
-		r.Begin("C10.6", "E-ORD", "one publication per group: exactly one addSeq in writeLocked, after all putMem, on the success path only", 2)
-		if fn := resolveFn(p, r, "leveldb", "(*DB).writeLocked"); fn != nil {
-			addSeq := evCall("(*leveldb.DB).addSeq")
-			putMem := evCall("(*leveldb.Batch).putMem")
-			n := countInstr(fn, addSeq)
-			r.Check(n >= 1, fnName(fn), "publishes", "writeLocked publishes the group's sequence numbers", "no addSeq", p.Pos(fn.Pos()))
-			ordNeverAfter(p, r, fn, "publish-after-insert", nil, addSeq, "db.addSeq", putMem, "batch.putMem", nil, "")
-			okUnlock := andPred(evCall("(*leveldb.DB).unlockWrite"), func(in ssa.Instruction) bool {
-				cc := callCommon(in)
-				return cc != nil && len(cc.Args) == 4 && isNilConst(cc.Args[3])
-			})
-			ordPrecede(p, r, fn, "publish-before-ack", nil, addSeq, "db.addSeq", okUnlock, "unlockWrite(.., nil)")
-			// the published delta is the group's total length
-			checkCallArg(p, r, fn, "delta-is-group-length", "(*leveldb.DB).addSeq", 1, mOriginAny(mCall("leveldb.batchesLen")), "batchesLen(batches)")
-		}
-		r.End()
+		rulePublishAfterInsert(p, r, "C10.6")
 	}
+}
+
+func rulePublishAfterInsert(p *Prog, r *Report, rule string) {
+	r.Begin(rule, "E-ORD", "one publication per group: exactly one addSeq in writeLocked, after all putMem, on the success path only", 2)
+	if fn := resolveFn(p, r, "leveldb", "(*DB).writeLocked"); fn != nil {
+		addSeq := evCall("(*leveldb.DB).addSeq")
+		putMem := evCall("(*leveldb.Batch).putMem")
+		n := countInstr(fn, addSeq)
+		r.Check(n >= 1, fnName(fn), "publishes", "writeLocked publishes the group's sequence numbers", "no addSeq", p.Pos(fn.Pos()))
+		ordNeverAfter(p, r, fn, "publish-after-insert", nil, addSeq, "db.addSeq", putMem, "batch.putMem", nil, "")
+		okUnlock := andPred(evCall("(*leveldb.DB).unlockWrite"), func(in ssa.Instruction) bool {
+			cc := callCommon(in)
+			return cc != nil && len(cc.Args) == 4 && isNilConst(cc.Args[3])
+		})
+		ordPrecede(p, r, fn, "publish-before-ack", nil, addSeq, "db.addSeq", okUnlock, "unlockWrite(.., nil)")
+		// the published delta is the group's total length
+		checkCallArg(p, r, fn, "delta-is-group-length", "(*leveldb.DB).addSeq", 1, mOriginAny(mCall("leveldb.batchesLen")), "batchesLen(batches)")
+	}
+	r.End()
 }
 
 // feedsUnlockMerged: value v (merged+1) flows (through phis) into the `merged` argument of an
